@@ -15,6 +15,7 @@ use zip::ZipArchive;
 // compile-time fact required by the property: the handle is Send and Sync when its reader is
 #[allow(dead_code)]
 fn assert_send_sync<T: Send + Sync>() {}
+#[cfg(not(zip_verif_no_sendsync))]
 #[allow(dead_code)]
 fn send_sync_facts() {
     assert_send_sync::<ZipArchive<Cursor<Vec<u8>>>>();
@@ -22,27 +23,82 @@ fn send_sync_facts() {
     assert_send_sync::<ZipArchive<Yielding>>();
 }
 
+/// control shared by all clones of one reader: lets a scenario arm ONE handle so that its n-th I/O
+/// operation (counted from arming) either fails or first runs a nested action on other handles
+/// (deterministic interleaving at I/O granularity), and lets threads start together
+pub struct Ctl {
+    next_id: std::sync::atomic::AtomicUsize,
+    armed: std::sync::atomic::AtomicUsize,
+    at: std::sync::atomic::AtomicU64,
+    count: std::sync::atomic::AtomicU64,
+    fault: std::sync::atomic::AtomicBool,
+    action: std::sync::Mutex<Option<Box<dyn FnMut() + Send>>>,
+}
+impl Ctl {
+    fn new() -> Arc<Ctl> {
+        use std::sync::atomic::*;
+        Arc::new(Ctl { next_id: AtomicUsize::new(1), armed: AtomicUsize::new(0), at: AtomicU64::new(0), count: AtomicU64::new(0),
+                       fault: AtomicBool::new(false), action: std::sync::Mutex::new(None) })
+    }
+    fn arm(&self, id: usize, at: u64, fault: bool, action: Option<Box<dyn FnMut() + Send>>) {
+        use std::sync::atomic::Ordering::SeqCst;
+        self.count.store(0, SeqCst);
+        self.at.store(at, SeqCst);
+        self.fault.store(fault, SeqCst);
+        *self.action.lock().unwrap() = action;
+        self.armed.store(id, SeqCst);
+    }
+    fn disarm(&self) {
+        self.armed.store(0, std::sync::atomic::Ordering::SeqCst);
+        *self.action.lock().unwrap() = None;
+    }
+}
 /// a cloneable reader that yields the thread at pseudo-random points (to shake OS schedules)
-#[derive(Clone)]
 pub struct Yielding {
     data: Arc<Vec<u8>>,
     pos: u64,
     rng: u64,
     every: u64,
+    ctl: Arc<Ctl>,
+    id: usize,
+}
+impl Clone for Yielding {
+    fn clone(&self) -> Yielding {
+        let id = self.ctl.next_id.fetch_add(1, std::sync::atomic::Ordering::SeqCst);
+        Yielding { data: self.data.clone(), pos: self.pos, rng: self.rng ^ (id as u64).wrapping_mul(0x9E3779B97F4A7C15), every: self.every, ctl: self.ctl.clone(), id }
+    }
 }
 impl Yielding {
-    fn tick(&mut self) {
+    /// returns true when this operation must fail
+    fn tick(&mut self) -> bool {
+        use std::sync::atomic::Ordering::SeqCst;
         self.rng ^= self.rng << 13;
         self.rng ^= self.rng >> 7;
         self.rng ^= self.rng << 17;
         if self.every > 0 && self.rng % self.every == 0 {
             std::thread::yield_now();
         }
+        if self.ctl.armed.load(SeqCst) == self.id {
+            let c = self.ctl.count.fetch_add(1, SeqCst);
+            if c == self.ctl.at.load(SeqCst) {
+                if self.ctl.fault.load(SeqCst) {
+                    return true;
+                }
+                let act = self.ctl.action.lock().unwrap().take();
+                if let Some(mut a) = act {
+                    self.ctl.armed.store(0, SeqCst);
+                    a();
+                }
+            }
+        }
+        false
     }
 }
 impl Read for Yielding {
     fn read(&mut self, buf: &mut [u8]) -> std::io::Result<usize> {
-        self.tick();
+        if self.tick() {
+            return Err(std::io::Error::new(std::io::ErrorKind::Other, "injected fault"));
+        }
         let p = (self.pos as usize).min(self.data.len());
         let n = buf.len().min(self.data.len() - p);
         buf[..n].copy_from_slice(&self.data[p..p + n]);
@@ -52,7 +108,9 @@ impl Read for Yielding {
 }
 impl Seek for Yielding {
     fn seek(&mut self, to: SeekFrom) -> std::io::Result<u64> {
-        self.tick();
+        if self.tick() {
+            return Err(std::io::Error::new(std::io::ErrorKind::Other, "injected fault"));
+        }
         let np: i128 = match to {
             SeekFrom::Start(p) => p as i128,
             SeekFrom::End(d) => self.data.len() as i128 + d as i128,
@@ -93,6 +151,7 @@ fn step(h: &mut Handle, hid_: usize, st: &Value) -> Map<String, Value> {
                     h.file = Some(f);
                 }
                 Err(e) => {
+                    m.insert("ev".into(), json!("COpenFault"));
                     m.insert("r".into(), json!(err_class(&e)));
                 }
             }
@@ -149,7 +208,8 @@ pub fn run(sc: &Value) -> Vec<Value> {
     let l = lex(&Mem(&bytes), &LexOpts::default());
     let nh = sc["handles"].as_u64().unwrap_or(2) as usize;
     let every = sc.get("yield_every").and_then(|x| x.as_u64()).unwrap_or(0);
-    let base = ZipArchive::new(Yielding { data: Arc::new(bytes.clone()), pos: 0, rng: 0x9E3779B97F4A7C15, every });
+    let ctl = Ctl::new();
+    let base = ZipArchive::new(Yielding { data: Arc::new(bytes.clone()), pos: 0, rng: 0x9E3779B97F4A7C15, every, ctl: ctl.clone(), id: 0 });
     let mut m = Map::new();
     m.insert("ev".into(), json!("CStart"));
     m.insert("L".into(), l);
@@ -174,9 +234,36 @@ pub fn run(sc: &Value) -> Vec<Value> {
                 .map(|_| Handle { ar: Box::leak(Box::new(base.clone())), file: None })
                 .collect();
             let mut evs = vec![];
+            // the reader ids of the handles: clones of `base` were numbered in creation order
+            let first_id = ctl.next_id.load(std::sync::atomic::Ordering::SeqCst) - nh;
+            let hsp: *mut Vec<Handle> = &mut hs;
             for st in sc["steps"].as_array().cloned().unwrap_or_default() {
                 let h = st["h"].as_u64().unwrap_or(0) as usize % nh;
-                evs.push(step(&mut hs[h], h, &st));
+                let nested: std::sync::Arc<std::sync::Mutex<Vec<Map<String, Value>>>> = Default::default();
+                if let Some(k) = st.get("fault_at").and_then(|x| x.as_u64()) {
+                    ctl.arm(first_id + h, k, true, None);
+                } else if let Some(hook) = st.get("hook") {
+                    // while handle h is inside this call, at its k-th I/O operation, other handles run `steps`
+                    let steps = hook["steps"].as_array().cloned().unwrap_or_default();
+                    let sink = nested.clone();
+                    let hp = hsp as usize;
+                    let act: Box<dyn FnMut() + Send> = Box::new(move || {
+                        // SAFETY (harness only): the nested steps only touch handles other than h
+                        let hs2: &mut Vec<Handle> = unsafe { &mut *(hp as *mut Vec<Handle>) };
+                        for ns in &steps {
+                            let g = ns["h"].as_u64().unwrap_or(0) as usize % hs2.len();
+                            if g != h {
+                                let e = step(&mut hs2[g], g, ns);
+                                sink.lock().unwrap().push(e);
+                            }
+                        }
+                    });
+                    ctl.arm(first_id + h, hook["at"].as_u64().unwrap_or(0), false, Some(act));
+                }
+                let e = step(unsafe { &mut (&mut *hsp)[h] }, h, &st);
+                ctl.disarm();
+                evs.extend(nested.lock().unwrap().drain(..));
+                evs.push(e);
             }
             for h in hs.iter_mut() {
                 h.file = None;
@@ -200,10 +287,13 @@ pub fn run(sc: &Value) -> Vec<Value> {
         // one OS thread per handle, each with its own script; per-handle logs concatenated
         let scripts: Vec<Vec<Value>> = sc["scripts"].as_array().map(|a| a.iter().map(|s| s.as_array().cloned().unwrap_or_default()).collect()).unwrap_or_default();
         let mut joins = vec![];
+        let barrier = Arc::new(std::sync::Barrier::new(scripts.len()));
         for (k, script) in scripts.into_iter().enumerate() {
             let mut c = base.clone();
+            let barrier = barrier.clone();
             joins.push(std::thread::spawn(move || {
                 let _ = &mut c;
+                barrier.wait();
                 let r = catch_unwind(AssertUnwindSafe(|| {
                     let mut h = Handle { ar: Box::leak(Box::new(c)), file: None };
                     let mut evs = vec![];
